@@ -1599,6 +1599,8 @@ def check_C11(ctx):
             if ctx.rng.random() < 0.5 and allgenes:
                 for g in ctx.rng.sample(allgenes, min(len(allgenes), 2)):
                     xs = [v for k, v in g.items() if k != 'id']
+                    if ctx.rng.random() < 0.15:
+                        xs = xs + [g['id']]        # the id itself is among the attribute values compared
                     if xs:
                         ge.append(ctx.rng.choice(xs))
             if ctx.rng.random() < 0.2:
@@ -2084,14 +2086,26 @@ def gen_ops(ctx, S, n):
     hogs = sorted((k for k in S.by_key if k[0] == 'h'), key=repr)
     members = sorted(S.by_key.keys(), key=repr)
     genes = sorted(S.ham.extant_gene_map.keys())
+    # a focus lineage: most comparisons re-use a few genomes on one root-to-leaf path, so that caches
+    # keyed too coarsely (by one genome, by the descendant only, ...) collide
+    focus = []
+    if gs:
+        deepest = ctx.rng.choice([p for p in gs if len(p) == max(len(q) for q in gs)] + gs[-2:])
+        focus = [p for p in gs if is_anc(p, deepest) or p == deepest]
+        focus += ctx.rng.sample(gs, min(2, len(gs)))
+
+    def pair():
+        pool = focus if (len(set(focus)) >= 2 and ctx.rng.random() < 0.7) else gs
+        a, b = ctx.rng.sample(sorted(set(pool)), 2)
+        return a, b
     ops = []
     for _ in range(n):
         r = ctx.rng.random()
         if r < 0.2 and len(gs) >= 2:
-            a, b = ctx.rng.sample(gs, 2)
+            a, b = pair()
             ops.append(('vertical', a, b))
-        elif r < 0.35 and len(gs) >= 2:
-            a, b = ctx.rng.sample(gs, 2)
+        elif r < 0.4 and len(gs) >= 2:
+            a, b = pair()
             ops.append(('lateral', a, b))
         elif r < 0.45:
             ops.append(('profile_full',))
@@ -2127,7 +2141,7 @@ def check_C17(ctx):
         undeclared = set(n.path for n in c.named_tree().leaves() if n.name not in declared)
         before = X.core()
         empty_before = X.empty_genomes()
-        ops = gen_ops(ctx, X, ctx.scale(25, 120))
+        ops = gen_ops(ctx, X, ctx.scale(40, 150))
         for i, op in enumerate(ops):
             ctx.counts['ops'] += 1
             ctx.dist['op=' + op[0]] += 1
